@@ -32,7 +32,7 @@ from sim.core import RunResult, sub_seed
 from sim import c18_segment
 
 ID = "C19"
-TIERS = {"quick": 3000, "thorough": 60000}
+TIERS = {"quick": 20000, "thorough": 300000}
 RULE = (
     "seeded runs: 88% gen scenarios (builder pattern = Choice / ArrayBuilder2D with symmetry, disallow_adjacent, use_move, initial / "
     "SegmentationBuilder2D / nested lists and tuples; fake solver whose sat / decided-cells answer is a pure function of the problem "
